@@ -627,6 +627,9 @@ func (g *Gen) randomReplace() {
 
 func scnHistory(g *Gen, budget int, arg string) {
 	defer func() { mintDenom = "uusdc" }()
+	// some transactions carry several messages (one branch, all-or-nothing)
+	g.batchRate = 0.05
+	defer func() { g.endBatch(); g.batchRate = 0 }()
 	for g.nOps < budget {
 		mintDenom = "uusdc"
 		if g.chance(0.25) {
